@@ -537,10 +537,14 @@ def _zero(v):
 def _ite_val(cnd, a, b):
     if isinstance(cnd, bool):
         return a if cnd else b
-    try:
-        return ite(cnd, a, b)
-    except Unsupported:
-        raise
+    # an integer array receiving bit-vector values (or vice versa): align the representation
+    if isinstance(a, (SBV, SU64)) and isinstance(b, SInt):
+        w = 64 if isinstance(a, SU64) else a.w
+        b = SU64(core.Z.Int2BV(b.t, 64)) if w == 64 else SBV(core.Z.Int2BV(b.t, w), w)
+    elif isinstance(b, (SBV, SU64)) and isinstance(a, SInt):
+        w = 64 if isinstance(b, SU64) else b.w
+        a = SU64(core.Z.Int2BV(a.t, 64)) if w == 64 else SBV(core.Z.Int2BV(a.t, w), w)
+    return ite(cnd, a, b)
 
 
 def ravel(idx, shape, order="C"):
